@@ -1,8 +1,125 @@
 (* Property C17 — scoped settings restore exactly and never leak across threads.
-   Only statements and [exact]; proofs live in Proofs/Scopes*.v. *)
-From PG Require Import Common.Tactics Model.ScopesBase Gen.ScopeDefs Model.Scopes Proofs.ScopesInstance.
+   Only statements and [exact]; proofs live in Proofs/Scopes*.v.  The scope definitions the theorems are about
+   (Gen/ScopeDefs.v) are regenerated from the source of /repo on every run. *)
+From PG Require Import Common.Tactics Model.ScopesBase Gen.ScopeDefs Model.Scopes
+  Proofs.ScopesStore Proofs.ScopesInstance Proofs.ScopesRestore Proofs.ScopesCongruence Proofs.ScopesEffective Proofs.ScopesMachine.
 
-(* The thread-local keys regenerated from the source are pairwise distinct. *)
-Theorem C17_keys_distinct : distinct key_names = true /\ length key_names = nkeys.
+(* (1) RESTORATION.  For every well-nested program over all the managers — any depth, any argument values,
+   exceptions raised anywhere and caught anywhere, enters that fail — and every state s (even an ill-typed one),
+   the state after the program is observationally the state before it. *)
+Theorem C17_restore : forall (p : sprog) (s : state), obs_eq (final (exec p s)) s.
+Proof. exact restore. Qed.
+Print Assumptions C17_restore.
+
+(* ... where "observationally" is justified: no getter and no later program (of any shape) can tell two
+   observationally equal states apart. *)
+Theorem C17_restore_indistinguishable : forall (p q : sprog) (s : state),
+  observations (exec q (final (exec p s))) = observations (exec q s) /\
+  escapes (exec q (final (exec p s))) = escapes (exec q s).
+Proof. exact restore_indistinguishable. Qed.
+Print Assumptions C17_restore_indistinguishable.
+
+Theorem C17_obs_eq_getters : forall (g : getter) (s t : state), obs_eq s t -> observe g s = observe g t.
+Proof. exact observe_congr. Qed.
+Print Assumptions C17_obs_eq_getters.
+
+(* For the value scopes as generated (all flag managers, per-thread dynamic evaluation) the stores are restored
+   syntactically: a key that was absent is deleted again, a key that was present gets its saved value back. *)
+Theorem C17_restore_value_scopes_exact : forall (p : sprog) (s : state), exact_prog p = true -> final (exec p s) = s.
+Proof. exact restore_exact. Qed.
+Print Assumptions C17_restore_value_scopes_exact.
+
+(* the base case, on the REGENERATED thread_local_value_scope: leaving restores the store it was entered in *)
+Theorem C17_value_scope_generated_restores : forall k a init s s1 sv,
+  thread_local_value_scope_enter k a init s = Some (s1, sv) -> thread_local_value_scope_exit k a init sv s1 = s.
+Proof. exact value_scope_restores. Qed.
+Print Assumptions C17_value_scope_generated_restores.
+
+(* (2) EFFECTIVENESS.  Inside `with c(a)`, right after entering and after any part of the body that lets no
+   exception escape, the getter of c returns the documented nesting rule [rule c a s] (innermost wins for value
+   scopes, outermost wins for permission, cascade for contextual override, merged keyword arguments for the
+   argument scopes, outer mappings first for detours). *)
+Theorem C17_effective : forall c a p s s1 sv, wt s -> valid_cm c = true ->
+  cm_enter c a s = Some (s1, sv) -> escapes (exec p s1) = false ->
+  observations (exec (Scope c a (Seq p (Obs (getter_of c)))) s) = observations (exec p s1) ++ [rule c a s].
+Proof. exact effective_in_body. Qed.
+Print Assumptions C17_effective.
+
+Theorem C17_permission_never_widens : forall a b p s s1 sv, wt s -> is_none a = false ->
+  observe GPerm s = v_none -> cm_enter CPerm a s = Some (s1, sv) -> escapes (exec p s1) = false ->
+  observations (exec (Scope CPerm a (Seq p (Scope CPerm b (Obs GPerm)))) s) = observations (exec p s1) ++ [a].
+Proof. exact permission_outermost. Qed.
+Print Assumptions C17_permission_never_widens.
+
+Theorem C17_contextual_cascade : forall vs p n, nodup_keys vs = true ->
+  dict_get n (contextual_merge p vs) = cascade_rule (dict_get n p) (dict_get n vs).
+Proof. exact contextual_cascade. Qed.
+Print Assumptions C17_contextual_cascade.
+
+Theorem C17_detour_outer_wins : forall cur ms k, dict_has k cur = true ->
+  dict_get k (dict_update cur (filter_map (detour_resolve cur) ms)) = dict_get k cur.
+Proof. exact detour_outer_wins. Qed.
+Print Assumptions C17_detour_outer_wins.
+
+(* (3) ISOLATION.  Any number of threads, any programs, any event schedule: a thread whose own program uses the
+   thread-local managers and getters ends with exactly the observations, exception flag and thread store it has
+   when run alone — whatever the other threads do, process-wide managers included. *)
+Theorem C17_isolation : forall (ps : list sprog) (sched : list nat) (i : nat) (p : sprog),
+  nth_error ps i = Some p -> tl_only p = true ->
+  nth_error (ths (run_threads ps sched)) i =
+  Some (mkThread (Ret (escapes (exec p init_state))) [] (observations (exec p init_state)), fst (final (exec p init_state))).
+Proof. exact isolation_threads. Qed.
+Print Assumptions C17_isolation.
+
+(* the same for every interleaving of single machine steps, from any world, at any moment of the run *)
+Theorem C17_isolation_steps : forall sched w i t l g0,
+  nth_error (ths w) i = Some (t, l) -> tl_thread t = true ->
+  nth_error (ths (run_steps sched w)) i = Some (solo_local (count i sched) t l g0) /\
+  tl_thread (fst (solo_local (count i sched) t l g0)) = true.
+Proof. exact isolation_steps. Qed.
+Print Assumptions C17_isolation_steps.
+
+(* when no thread uses a process-wide manager, every thread is isolated, per-thread dynamic evaluation included *)
+Theorem C17_isolation_without_process_wide : forall ps sched i p,
+  (forall q, In q ps -> no_global q = true) -> nth_error ps i = Some p ->
+  nth_error (ths (run_threads ps sched)) i =
+  Some (mkThread (Ret (escapes (exec p init_state))) [] (observations (exec p init_state)), fst (final (exec p init_state))).
+Proof. exact isolation_threads_ng. Qed.
+Print Assumptions C17_isolation_without_process_wide.
+
+(* explicit propagation: overrides captured in one thread and re-entered in a fresh thread are read back unchanged *)
+Theorem C17_propagation : forall cur a s1 sv, nodup_keys cur = true -> a = VD cur ->
+  cm_enter CContextual a init_state = Some (s1, sv) -> observe GContextual s1 = VD cur.
+Proof. exact propagation. Qed.
+Print Assumptions C17_propagation.
+
+(* (4) PROCESS-WIDE MANAGERS.  Only dynamic_evaluate(per_thread=False) and load_types_for_deserialization write
+   the process-wide store; both are among the managers the library documents as process-wide; they really are
+   visible from another thread, while apply_wrappers (documented as not thread-safe) is per thread here. *)
+Theorem C17_process_wide_documented :
+  (forall c, cm_global c = true -> documented_process_wide c = true) /\
+  (forall c a l g s1 sv, cm_global c = false -> cm_enter c a (l, g) = Some (s1, sv) -> snd s1 = g) /\
+  (forall c a sv l g, cm_global c = false -> snd (cm_exit c a sv (l, g)) = g) /\
+  visible_witness CDynEvalGlobal (VA (AInt 7)) = [VA (AInt 7)] /\
+  visible_witness CLoadTypes (VD [(0%Z, AInt 1)]) = [VD [(0%Z, AInt 1)]] /\
+  visible_witness CApplyWrappers (VD [(5%Z, AInt 8)]) = [VD []].
+Proof.
+  exact (conj global_is_documented (conj enter_keeps_glob (conj exit_keeps_glob
+        (conj dyn_global_visible (conj load_types_visible apply_wrappers_not_visible))))).
+Qed.
+Print Assumptions C17_process_wide_documented.
+
+(* The machine used for interleavings computes exactly the big-step semantics the other theorems are about. *)
+Theorem C17_machine_is_exec : forall p s n, fuel_for p <= n ->
+  run_solo n (start p) s = (mkThread (Ret (escapes (exec p s))) [] (observations (exec p s)), final (exec p s)).
+Proof. exact machine_computes_exec. Qed.
+Print Assumptions C17_machine_is_exec.
+
+(* Instance obligations on the regenerated definitions. *)
+Theorem C17_generated_keys_distinct : distinct key_names = true /\ length key_names = nkeys.
 Proof. exact generated_keys_distinct. Qed.
-Print Assumptions C17_keys_distinct.
+Print Assumptions C17_generated_keys_distinct.
+
+Theorem C17_generated_flags_cover : forallb flag_ok spec_flags = true /\ distinct (map (fun i => (i, [])) spec_flags) = true.
+Proof. exact generated_flags_cover. Qed.
+Print Assumptions C17_generated_flags_cover.
